@@ -201,7 +201,7 @@ impl Scenario for C09 {
       &["executor (FIFO, runs as timers fall due), timer, clock (sim)"],
     )
   }
-  fn generate(&self, rng: &mut Rng, _tier: Tier) -> Value {
+  fn generate(&self, rng: &mut Rng, tier: Tier) -> Value {
     let op = match rng.below(9) {
       0 | 1 => ROp::Debounce,
       2 => ROp::ThrottleLeading,
@@ -212,7 +212,8 @@ impl Scenario for C09 {
       _ => ROp::BufferCountTime(rng.range(1, 3)),
     };
     let w = *rng.pick(&[2u32, 5, 2, 5, 1000, 1003]);
-    let n = rng.range(1, 10);
+    let deep = deepen(rng, tier);
+    let n = rng.range(1, 10 * deep);
     let mut steps = Vec::new();
     for i in 0..n {
       // gaps shorter than, equal to and longer than the window
